@@ -29,6 +29,7 @@ type c06Case struct {
 	SourcesB  map[string]string `json:"sources_b,omitempty"`
 	EditedPkg string            `json:"edited_pkg,omitempty"`
 	Observed  []string          `json:"observed_pkgs,omitempty"` // package dirs whose diagnostics must not change
+	ScanTests bool              `json:"scan_tests,omitempty"`    // drivers: run everything with scan-tests on
 }
 
 func diagLine(d engine.Diag) string {
@@ -61,6 +62,12 @@ func dirOfFile(f string) string {
 func c06Drivers(c c06Case) string {
 	prog := enginePkgs(c.Pkgs, c.Sources)
 	cfg := engine.DefaultConfig()
+	var flags []string
+	if c.ScanTests {
+		// test files are analysed too: their annotations become facts of the test variants
+		cfg.ScanTests = true
+		flags = []string{"--config.scan-tests"}
+	}
 	ld, err := engine.Load(prog, engine.VirtualRoot, "go1.23")
 	if err != nil {
 		return "load: " + err.Error()
@@ -87,14 +94,14 @@ func c06Drivers(c c06Case) string {
 	if err := engine.WriteToDisk(prog, dir); err != nil {
 		return ""
 	}
-	bin := engine.RunBinary(dir, nil, nil, "./...")
+	bin := engine.RunBinary(dir, flags, nil, "./...")
 	if len(bin.Panics) > 0 || len(bin.Errors) > 0 || bin.Exit != 0 {
 		return fmt.Sprintf("binary failed: exit %d %v %v %s", bin.Exit, bin.Panics, bin.Errors, firstLine(bin.Stderr))
 	}
 	if d := diffSets(diagSet(a.Diags), diagSet(bin.Diags), "in-process", "standalone binary"); d != "" {
 		return d
 	}
-	vet := engine.RunVet(dir, nil, nil, "./...")
+	vet := engine.RunVet(dir, flags, nil, "./...")
 	if len(vet.Panics) > 0 || len(vet.Errors) > 0 {
 		return fmt.Sprintf("go vet -vettool failed: exit %d %v %v", vet.Exit, vet.Panics, vet.Errors)
 	}
@@ -356,6 +363,9 @@ func TestC06(t *testing.T) {
 		dc := c06Case{Pkgs: pkgDirs(p), Sources: src, Mode: "drivers"}
 		if extN < extBudget {
 			extN++
+			if dc.ScanTests = rapid.IntRange(0, 9).Draw(rt, "driversScanTests") < 3; dc.ScanTests {
+				ev.Class(id, "relation drivers with scan-tests on")
+			}
 			if why := c06Drivers(dc); why != "" {
 				violation(rt, id, "c06", "drivers", p.Size(), dc, "drivers disagree: %s", why)
 			}
